@@ -202,7 +202,14 @@ class Run:
 
     # ------------------------------------------------------------ solving
     def _solve(self, o):
-        r = smt.check(o.lines, o.asserts, "z3", o.timeout, get_model=o.get_model)
+        if o.lines and o.lines[0] == "; QF_BV":
+            # portfolio: integer encoding of the bit-vector query first, bit-blasting second
+            for solver, t in (("cvc5int", min(o.timeout, 30)), ("z3", o.timeout)):
+                r = smt.check(o.lines, o.asserts, solver, t, get_model=False)
+                if r.status in ("sat", "unsat"):
+                    break
+        else:
+            r = smt.check(o.lines, o.asserts, "z3", o.timeout, get_model=o.get_model)
         o.result = r
         if r.status in ("sat", "unsat"):
             for cs in self.cross_solvers:
